@@ -40,22 +40,21 @@ pub fn check_file(case: &ProjCase, out: &imp::Outcome, i: usize, which: Which, s
     let id = &case.ids[i];
     let p = out.parse.get(id).ok_or("no parse-stage result")?;
     let v = out.valid.get(id).ok_or("no validated result")?;
-    if case.damaged[i].is_some() {
-        // deliberately malformed member: the file only serves as an import target
-        if p.ast.is_none() {
-            return Err(format!("file {id}: a file whose only defect is one malformed member (ending at its terminator) has no tree"));
-        }
-        st.class("damaged-import-target");
-        return Ok(FileResult {
-            compared: 0,
-            dont_care: Some("damaged file".into()),
-        });
+    let damaged = case.damaged[i].is_some();
+    if damaged && p.ast.is_none() {
+        return Err(format!("file {id}: a file whose only defect is one malformed member (ending at its terminator) has no tree"));
     }
-    if !p.diagnostics.is_empty() {
+    if !damaged && !p.diagnostics.is_empty() {
         return Err(format!("file {id}: well-formed generated document got a syntax-stage diagnostic: {}", cmp::describe(&p.diagnostics[0])));
     }
-    let actual = v.ast.as_ref().ok_or_else(|| format!("file {id}: no tree for a well-formed document"))?;
-    let r: RefOut = match case.reference(i) {
+    let actual = v.ast.as_ref().ok_or_else(|| format!("file {id}: no tree for a {} document", if damaged { "recoverable" } else { "well-formed" }))?;
+    // reference input: the tree built from the model; for a file with an injected malformed
+    // member the library's own parse-stage tree (differential on the validation stage only)
+    let src_tree: &ast::Aidl = if damaged { p.ast.as_ref().unwrap() } else { &case.docs[i].expected };
+    if damaged {
+        st.class("damaged-file-compared-differentially");
+    }
+    let r: RefOut = match crate::refval::validate_ref(src_tree, &case.keys) {
         Ok(r) => r,
         Err(why) => {
             st.discard(&why);
@@ -65,18 +64,20 @@ pub fn check_file(case: &ProjCase, out: &imp::Outcome, i: usize, which: Which, s
             });
         }
     };
-    // the tree must have the expected shape, otherwise paths / substitutions are meaningless
-    cmp::compare_structure(
-        &r.tree,
-        actual,
-        astvisit::Mask {
-            ranges: true,
-            docs: true,
-            kinds: true,
-            method_oneway: true,
-        },
-    )
-    .map_err(|e| format!("file {id}: tree does not mirror the source: {e}"))?;
+    if !damaged {
+        // the tree must have the expected shape, otherwise paths / substitutions are meaningless
+        cmp::compare_structure(
+            &r.tree,
+            actual,
+            astvisit::Mask {
+                ranges: true,
+                docs: true,
+                kinds: true,
+                method_oneway: true,
+            },
+        )
+        .map_err(|e| format!("file {id}: tree does not mirror the source: {e}"))?;
+    }
     let vd: Vec<&Diagnostic> = imp::minus(&v.diagnostics, &p.diagnostics);
     let mut compared = 0;
     let pre = |e: String| format!("file {id}: {e}");
@@ -197,8 +198,12 @@ pub fn check_file(case: &ProjCase, out: &imp::Outcome, i: usize, which: Which, s
                             )));
                         }
                         compared += 1;
-                        // keyword present in the source <=> non-loose expected range
-                        if !crate::render::is_loose(&em.oneway_range) {
+                        // keyword present in the source <=> parse-stage oneway flag
+                        let spelled = match &src_tree.item {
+                            ast::Item::Interface(si) => matches!(si.elements.get(k), Some(ast::InterfaceElement::Method(sm)) if sm.oneway),
+                            _ => false,
+                        };
+                        if spelled {
                             dom.insert(key(&am.oneway_range));
                         }
                         dom.insert(key(&am.return_type.symbol_range));
